@@ -94,7 +94,8 @@ static inline int parse_xml(XmlDoc& d, Document* doc, bool newxta = true)
 
 // ---------------------------------------------------------------- abstract model
 struct MLoc { std::string id, name, inv, rate; bool urgent = false, committed = false; };
-struct MEdge { int src = 0, dst = 0; bool src_bp = false, dst_bp = false; int ctrl = 0 /* 0 attribute absent, 1 "true", 2 "false" */; std::string select, guard, sync, assign, prob; };
+struct MEdge { int src = 0, dst = 0; bool src_bp = false, dst_bp = false; int ctrl = 0 /* 0 attribute absent, 1 "true", 2 "false" */; std::string select, guard, sync, assign, prob;
+    std::string dst_ref_override, dst_name_override;   /* faults: XML target ref / XTA target name given verbatim */ };
 struct MTemplate { std::string name, params, decls; std::vector<MLoc> locs; std::vector<std::string> bps; int init = 0; std::vector<MEdge> edges; };
 struct MModel { std::string gdecl; std::vector<MTemplate> templs; std::string system; };
 
@@ -129,7 +130,7 @@ static inline XmlDoc render_xml(const MModel& m)
             if (e.ctrl == 1) a.push_back({"controllable", "true"}); else if (e.ctrl == 2) a.push_back({"controllable", "false"});
             d.el("transition", a);
             d.empty("source", {{"ref", e.src_bp ? t.bps[e.src] : t.locs[e.src].id}});
-            d.empty("target", {{"ref", e.dst_bp ? t.bps[e.dst] : t.locs[e.dst].id}});
+            d.empty("target", {{"ref", !e.dst_ref_override.empty() ? e.dst_ref_override : e.dst_bp ? t.bps[e.dst] : t.locs[e.dst].id}});
             if (!e.select.empty()) d.leaf("label", e.select, {{"kind", "select"}});
             if (!e.guard.empty()) d.leaf("label", e.guard, {{"kind", "guard"}});
             if (!e.sync.empty()) d.leaf("label", e.sync, {{"kind", "synchronisation"}});
@@ -167,7 +168,7 @@ static inline std::string render_xta(const MModel& m, bool chain = false)
                 auto& e = t.edges[i];
                 // with `chain`, an edge that starts where the previous one started is written in the chained form ", -> target { ... }" (no probability there)
                 bool chained = chain && i > 0 && e.src == t.edges[i - 1].src && e.src_bp == t.edges[i - 1].src_bp && e.prob.empty();
-                s += std::string(i ? ",\n  " : "  ") + (chained ? "" : (e.src_bp ? "_" + t.bps[e.src] : loc_name(t.locs[e.src]))) + (edge_control(e) ? " -> " : " -u-> ") + (e.dst_bp ? "_" + t.bps[e.dst] : loc_name(t.locs[e.dst])) + " {";
+                s += std::string(i ? ",\n  " : "  ") + (chained ? "" : (e.src_bp ? "_" + t.bps[e.src] : loc_name(t.locs[e.src]))) + (edge_control(e) ? " -> " : " -u-> ") + (!e.dst_name_override.empty() ? e.dst_name_override : e.dst_bp ? "_" + t.bps[e.dst] : loc_name(t.locs[e.dst])) + " {";
                 if (!e.select.empty()) s += " select " + e.select + ";";
                 if (!e.guard.empty()) s += " guard " + e.guard + ";";
                 if (!e.sync.empty()) s += " sync " + e.sync + ";";
